@@ -501,6 +501,10 @@ func execCache(id string, s *ev.Shard, root string, c CacheCase) *rp.Fail {
 					}
 				}
 			}
+			if id == "C14" && st.Force && rr.err != nil && len(st.Fail) == 0 && len(st.Abort) == 0 {
+				// nothing was made to fail: whatever the files and the cache look like, a forced run runs
+				return &rp.Fail{Sig: "forced-run-refused", Size: size, Msg: fmt.Sprintf("%s: the forced run stopped with an error although no command failed: %v", where, rr.err)}
+			}
 			if id == "C14" && st.Force && rr.err == nil && len(st.Fail) == 0 {
 				for _, name := range st.Tasks {
 					if _, ok := reported[name]; !ok {
